@@ -23,11 +23,13 @@ w4 = rows(lambda s: s.endswith(("-m5", "-m6")) or s == "C02-m4")
 w5 = rows(lambda s: s.endswith(("-m7", "-m8")))
 W8 = {"C11-m9", "C11-m10", "C20-m9", "C20-m10", "C16-m11", "C16-m12"}
 w6 = rows(lambda s: s.endswith(("-m9", "-m10")) and s not in W8)
-w7 = rows(lambda s: s.endswith(("-m11", "-m12")) and s not in W8)
+W9 = {"C12-m11", "C12-m12", "C04-m11", "C04-m12", "C08-m11", "C08-m12"}
+w7 = rows(lambda s: s.endswith(("-m11", "-m12")) and s not in W8 and s not in W9)
 w8 = rows(lambda s: s in W8)
+w9 = rows(lambda s: s in W9)
 def count(rs):
-    return sum("| as built" in r for r in rs), len(rs)
-a4, n4 = count(w4); a5, n5 = count(w5); a6, n6 = count(w6); a7, n7 = count(w7); a8, n8 = count(w8)
+    return sum("| as built" in r and "(not detected)" not in r for r in rs), len(rs)
+a4, n4 = count(w4); a5, n5 = count(w5); a6, n6 = count(w6); a7, n7 = count(w7); a8, n8 = count(w8); a9, n9 = count(w9)
 nd = [s for s, m in metas.items() if "check" in m and not m.get("detected")]
 block = f"""<!-- seeded-tables-begin -->
 **Wave 4** ({n4} changes incl. the recreated C02-m4, two per claimed property, numbered m5/m6). "as built" = the checks as
@@ -72,7 +74,15 @@ summaries of the earlier changes to that property, nothing from /verif):
 |--------|---------------------------|--------|---------------------------|
 """ + "\n".join(w8) + f"""
 
-{a8} of {n8} as built, {n8 - a8} after the listed additions. Not detected by the committed checks: {nd or 'none'}.
+{a8} of {n8} as built, {n8 - a8} after the listed additions.
+
+**Wave 9** ({n9} changes for C04, C08, C12, same briefing, 12-minute budget per sub-agent):
+
+| change | what it needs to manifest | caught | first violated obligation |
+|--------|---------------------------|--------|---------------------------|
+""" + "\n".join(w9) + f"""
+
+{a9} of {n9} as built. Not detected by the committed checks: {nd or 'none'}.
 <!-- seeded-tables-end -->"""
 p = os.path.join(ROOT, "DESIGN.md")
 s = open(p).read()
